@@ -72,7 +72,7 @@ func c20ExecAsync(sc c20Async) string {
 	if pv != nil {
 		return fmt.Sprintf("Wait panicked: %v", pv)
 	}
-	margin := 20_000 // us: "clearly before / after"
+	margin := 150_000 // us: "clearly before / after"
 	switch {
 	case sc.ResolveUs >= 0 && sc.ResolveUs+margin < sc.DeadlineUs:
 		if err != nil {
@@ -123,10 +123,11 @@ func TestC20_AsyncOp(t *testing.T) {
 			if sc.ResolveUs < 0 {
 				sc.ResolveUs = 0
 			}
-		case 3:
+		case 3: // clearly before: a long deadline, so that scheduling noise cannot turn it into a race
+			sc.DeadlineUs = 400_000
 			sc.ResolveUs = rapid.IntRange(0, 2000).Draw(rt, "early")
 		default:
-			sc.ResolveUs = sc.DeadlineUs + rapid.IntRange(21_000, 60_000).Draw(rt, "late")
+			sc.ResolveUs = sc.DeadlineUs + rapid.IntRange(151_000, 200_000).Draw(rt, "late")
 		}
 		if d := c20ExecAsync(sc); d != "" {
 			violation(rt, "C20", "c20async", sc, "%s", d)
